@@ -17,7 +17,8 @@ Require Import Txtpp.Str Txtpp.Consts Txtpp.Grammar Txtpp.Tags Txtpp.Path Txtpp.
 Inductive item :=
 | IText (l : str)
 | IDir (d : directive) (followed : bool)
-| IBad.                                  (* multi-line directive without prefix *)
+| IBad                                   (* multi-line directive without prefix *)
+| ISlicePanic.                           (* add_line would slice inside a character (never on UTF-8 text) *)
 
 Definition needs_prefix_err (d : directive) : bool :=
   multi (d_ty d) && (match d_prefix d with [] => true | _ => false end).
@@ -39,7 +40,8 @@ Fixpoint parse (clean : bool) (cur : option directive) (ls : list str) : list it
     | Some d =>
       match add_line d l with
       | AddOk d' => parse clean (Some d') r
-      | _ => IDir d true :: fresh
+      | AddStop => IDir d true :: fresh
+      | AddPanic => [ISlicePanic]
       end
     end
   end.
@@ -74,6 +76,7 @@ Definition item_output (it : item) (s : pst) : ires :=
       end
     else IOut (Some l) s
   | IBad => IErr KDirective (wld s)
+  | ISlicePanic => IPanic
   | IDir d _ =>
     match exec_directive orc md src base le d s with
     | XErr k w => IErr k w
